@@ -294,6 +294,7 @@ def rules(repo: Repo, tier: str) -> List[RuleResult]:
         rule_domainname(repo),
         rule_sections(repo),
         c01.rule_leftover(repo, "C05.leftover", ["ProblemParser.parse_objects"]),
+        c01.rule_typedlist(repo, "C05.typedlist", ["ProblemParser.parse_objects"]),
         c06.rule_direction(repo, "C05.direction"),
         rule_goal(repo),
         rule_value(repo),
